@@ -582,7 +582,8 @@ class Framer(tasking.Tasker):
             ScheduleNames[self.schedule],
             self.name))
 
-        exits = self.actives[:]  #make copy of self.actives so can reverse it
+        # exit the full outline so frames suspended under a conditional aux get exited too
+        exits = self.active.outline[:] if self.active else self.actives[:]
         self.exit(exits) #exits is reversed in place in exit()
         self.deactivate()
         if not abort:
